@@ -25,6 +25,7 @@ groups = {
     "internal": {"pkg": "internal", "hdir": "harness/internal", "tags": ""},
     "file": {"pkg": "file", "hdir": "harness/file", "tags": ""},
     "vfs": {"pkg": ".", "hdir": "harness/vfs", "tags": "vfs"},
+    "cmd": {"pkg": "cmd/litestream", "hdir": "harness/cmd", "tags": ""},
 }
 
 props = {}
@@ -309,6 +310,7 @@ props["C14"] = {
         run("root", "VxC14Init", {}, {}),
         run("root", "VxC14Checkpoint", {}, {}),
         run("root", "VxC14Close", {}, {}),
+        run("cmd", "VxC14RestoreIfNeeded", {}, {}, note="the -restore-if-db-not-exists start-up step leaves an existing database file alone, also an empty one"),
         run("root", "VxC14EnsureExists", {}, {}, note="start-up restore never touches an existing source database, its -wal or -shm"),
     ],
     "assumptions": [
